@@ -24,6 +24,8 @@ def gen_case(seed, idx):
     header, dump = objgen.render_objlib(model, rng)
     header += '#define FOO_LIMIT 10\nvoid foo_free_standing (gint x);\nFooRec *foo_free_make (void);\nvoid foo_rec_frob (FooRec *self);\nFooRec *foo_rec_new (void);\n'
     header += c03.role_decls(model)
+    # one structure tag with two typedefs, declared before the structure is defined
+    header += 'typedef struct _FooTwinned FooTwinned;\ntypedef struct _FooTwinned FooTwinnedAlias;\nstruct _FooTwinned {\n  gint x;\n  gdouble y;\n};\n'
     targets = c03.targets_of(model, header)
     source, blocks = c03.gen_blocks(rng, targets, model)
     # split the blocks over three source files
@@ -85,6 +87,8 @@ def variants(rng, lib):
     # typedef after the struct instead of before
     l5 = dict(lib)
     t5 = re.sub(r'typedef struct _(\w+) (\w+);\nstruct _\1 \{\n((?:  [^\n]*\n)*)\};', lambda m: 'struct _%s {\n%s};\ntypedef struct _%s %s;' % (m.group(1), m.group(3), m.group(1), m.group(2)), text)
+    t5 = re.sub(r'typedef struct _(\w+) (\w+);\ntypedef struct _\1 (\w+);\nstruct _\1 \{\n((?:  [^\n]*\n)*)\};',
+                lambda m: 'struct _%s {\n%s};\ntypedef struct _%s %s;\ntypedef struct _%s %s;' % (m.group(1), m.group(4), m.group(1), m.group(2), m.group(1), m.group(3)), t5)
     l5['headers'] = [(fn, t5)]
     out.append(('typedef-order', l5, {'PYTHONHASHSEED': '12'}, None, 'nolines'))
     # includes / packages / c:includes in another order
